@@ -28,19 +28,19 @@ type omap interface {
 
 type plain struct{ s *listz.SkipList[int, int] }
 
-func (p plain) Set(k, v int)              { p.s.Set(k, v) }
-func (p plain) SetNx(k, v int) bool       { return p.s.SetNx(k, v) }
-func (p plain) SetX(k, v int) bool        { return p.s.SetX(k, v) }
-func (p plain) Get(k int) (int, bool)     { return p.s.Get(k) }
-func (p plain) Remove(k int) (int, bool)  { return p.s.Remove(k) }
-func (p plain) Clear()                    { p.s.Clear() }
-func (p plain) Len() int                  { return p.s.Len() }
-func (p plain) Keys() []int               { return p.s.Keys() }
-func (p plain) Values() []int             { return p.s.Values() }
-func (p plain) Range(f func(k, v int) bool) { p.s.Range(f) }
-func (p plain) RangeWithStart(s int, f func(k, v int) bool) { p.s.RangeWithStart(s, f) }
+func (p plain) Set(k, v int)                                   { p.s.Set(k, v) }
+func (p plain) SetNx(k, v int) bool                            { return p.s.SetNx(k, v) }
+func (p plain) SetX(k, v int) bool                             { return p.s.SetX(k, v) }
+func (p plain) Get(k int) (int, bool)                          { return p.s.Get(k) }
+func (p plain) Remove(k int) (int, bool)                       { return p.s.Remove(k) }
+func (p plain) Clear()                                         { p.s.Clear() }
+func (p plain) Len() int                                       { return p.s.Len() }
+func (p plain) Keys() []int                                    { return p.s.Keys() }
+func (p plain) Values() []int                                  { return p.s.Values() }
+func (p plain) Range(f func(k, v int) bool)                    { p.s.Range(f) }
+func (p plain) RangeWithStart(s int, f func(k, v int) bool)    { p.s.RangeWithStart(s, f) }
 func (p plain) RangeWithRange(s, e int, f func(k, v int) bool) { p.s.RangeWithRange(s, e, f) }
-func (p plain) Steer()                    { vx.SteerRand(p.s) }
+func (p plain) Steer()                                         { vx.SteerRand(p.s) }
 func (p plain) All(f func(k, v int) bool) {
 	for k, v := range p.s.All() {
 		if !f(k, v) {
@@ -63,21 +63,23 @@ func (p plain) HeadKey() (int, bool) {
 	return n.Key(), true
 }
 
-type withCmp struct{ s *listz.SkipListWithCmp[int, int] }
+type withCmp struct {
+	s *listz.SkipListWithCmp[int, int]
+}
 
-func (p withCmp) Set(k, v int)              { p.s.Set(k, v) }
-func (p withCmp) SetNx(k, v int) bool       { return p.s.SetNx(k, v) }
-func (p withCmp) SetX(k, v int) bool        { return p.s.SetX(k, v) }
-func (p withCmp) Get(k int) (int, bool)     { return p.s.Get(k) }
-func (p withCmp) Remove(k int) (int, bool)  { return p.s.Remove(k) }
-func (p withCmp) Clear()                    { p.s.Clear() }
-func (p withCmp) Len() int                  { return p.s.Len() }
-func (p withCmp) Keys() []int               { return p.s.Keys() }
-func (p withCmp) Values() []int             { return p.s.Values() }
-func (p withCmp) Range(f func(k, v int) bool) { p.s.Range(f) }
-func (p withCmp) RangeWithStart(s int, f func(k, v int) bool) { p.s.RangeWithStart(s, f) }
+func (p withCmp) Set(k, v int)                                   { p.s.Set(k, v) }
+func (p withCmp) SetNx(k, v int) bool                            { return p.s.SetNx(k, v) }
+func (p withCmp) SetX(k, v int) bool                             { return p.s.SetX(k, v) }
+func (p withCmp) Get(k int) (int, bool)                          { return p.s.Get(k) }
+func (p withCmp) Remove(k int) (int, bool)                       { return p.s.Remove(k) }
+func (p withCmp) Clear()                                         { p.s.Clear() }
+func (p withCmp) Len() int                                       { return p.s.Len() }
+func (p withCmp) Keys() []int                                    { return p.s.Keys() }
+func (p withCmp) Values() []int                                  { return p.s.Values() }
+func (p withCmp) Range(f func(k, v int) bool)                    { p.s.Range(f) }
+func (p withCmp) RangeWithStart(s int, f func(k, v int) bool)    { p.s.RangeWithStart(s, f) }
 func (p withCmp) RangeWithRange(s, e int, f func(k, v int) bool) { p.s.RangeWithRange(s, e, f) }
-func (p withCmp) Steer()                    { vx.SteerRand(p.s) }
+func (p withCmp) Steer()                                         { vx.SteerRand(p.s) }
 func (p withCmp) All(f func(k, v int) bool) {
 	for k, v := range p.s.All() {
 		if !f(k, v) {
@@ -284,6 +286,61 @@ func ops(l omap, m *model, n int, withClear bool) {
 
 func natural(a, b int) bool { return a < b }
 
+// fixedOps applies n operations of one kind (0 Set, 3 Remove) with fresh symbolic keys.
+func fixedOps(l omap, m *model, n, kind int) {
+	for i := 0; i < n; i++ {
+		k, v := vx.Int("k"), vx.Int("v")
+		if kind == 0 {
+			l.Set(k, v)
+			m.put(k, v, true, true)
+		} else {
+			had, old := m.has(k), m.val(k)
+			rv, rok := l.Remove(k)
+			vx.Assert(rok == had, "Remove returns whether the key was removed")
+			if rok {
+				vx.Assert(rv == old, "Remove returns the removed value")
+			}
+			m.remove(k)
+		}
+		l.Steer()
+	}
+}
+
+// GrowShrink: a inserts (towers grow the top level), b removals (the level shrinks), c inserts (the level
+// grows again over whatever the removals left behind), then the full observation.
+func GrowShrink() {
+	var l omap
+	var m *model
+	if vx.Param("cmp", 0) == 1 {
+		mask := vx.Int("mask")
+		lt := func(a, b int) bool { return (a ^ mask) < (b ^ mask) }
+		l = withCmp{listz.NewSkipListWithCmp[int, int](func(a, b int) int {
+			return vx.IteInt(a == b, 0, vx.IteInt(lt(a, b), -1, 1))
+		})}
+		m = &model{lt: lt}
+	} else {
+		l = plain{listz.NewSkipList[int, int]()}
+		m = &model{lt: natural}
+	}
+	l.Steer()
+	fixedOps(l, m, vx.Param("a", 2), 0)
+	fixedOps(l, m, vx.Param("b", 2), 3)
+	fixedOps(l, m, vx.Param("c", 1), 0)
+	// light observation (the full one multiplies the paths by its own forks)
+	all := func(int) bool { return true }
+	vx.Assert(l.Len() == m.size(), "Len reports the number of bindings")
+	ks, vs := l.Keys(), l.Values()
+	if len(ks) == len(vs) {
+		m.checkEnum("Keys/Values", ks, vs, all, false)
+	}
+	q := vx.Int("q")
+	gv, gok := l.Get(q)
+	vx.Assert(gok == m.has(q), "Get reports whether the key is bound")
+	if gok {
+		vx.Assert(gv == m.val(q), "Get returns the bound value")
+	}
+}
+
 // Plain: SkipList[int,int] built by NewSkipList.
 func Plain() {
 	l := plain{listz.NewSkipList[int, int]()}
@@ -328,7 +385,8 @@ func Cmp() {
 }
 
 var Harnesses = map[string]func(){
-	"vh/c02.Plain": Plain,
-	"vh/c02.Zero":  Zero,
-	"vh/c02.Cmp":   Cmp,
+	"vh/c02.Plain":      Plain,
+	"vh/c02.Zero":       Zero,
+	"vh/c02.Cmp":        Cmp,
+	"vh/c02.GrowShrink": GrowShrink,
 }
